@@ -115,9 +115,23 @@ pub fn chan(toks: &[&str]) -> Option<String> {
     std::thread::sleep(Duration::from_millis(15));
     let admitted = sent.load(Ordering::SeqCst);
     let mut order_ok = true;
+    // (polling with a deadline: a sender that never gets through must not hang the harness; the threads are leaked then)
+    let deadline = Instant::now() + Duration::from_secs(12);
     for (i, s) in sizes.iter().enumerate() {
-        match rx.recv() {
-            Ok(Response::FileContent { data, more_to_follow }) => {
+        let got = loop {
+            match rx.try_recv() {
+                Ok(x) => break Some(x),
+                Err(_) => {
+                    if Instant::now() > deadline {
+                        std::mem::forget(rx); std::mem::forget(th);
+                        return Some(format!("admitted={} intact_in_order=0 counter_end=- extra=0 STALLED-after={}-of={}", admitted, i, sizes.len()));
+                    }
+                    std::thread::sleep(Duration::from_micros(200));
+                }
+            }
+        };
+        match got {
+            Some(Response::FileContent { data, more_to_follow }) => {
                 if data.len() != s - 13 || more_to_follow != (i % 2 == 0) || (data.len() > 1 && data[0] != (i % 251) as u8) || (data.len() > 0 && *data.last().unwrap() != 0xA5) { order_ok = false; }
             }
             _ => { order_ok = false; break; }
